@@ -4,7 +4,7 @@
    Model/C20_Fanout.v.  "History" = any list of operations (any length, any order, any arguments);
    the conditions [guarded .. g h init] restrict histories only by what the chain clock and the
    scheduler guarantee (stated with each theorem). *)
-From Verif Require Import Lib.Base Lib.Sched Model.C20_Bookkeeping Model.C20_Fanout Proofs.C20_Bookkeeping Proofs.C20_Fanout.
+From Verif Require Import Lib.Base Lib.Sched Model.C20_Bookkeeping Model.C20_Fanout Proofs.C20_Bookkeeping Proofs.C20_Fanout Proofs.C20_Unbounded.
 
 (* ---------------------------------------------------------------------------------------------- *)
 (* attested (services/attester/standard): in every history whose attestation jobs start in slot
@@ -31,6 +31,15 @@ Theorem C20_attested_tree_refuted :
     g_succ st = epoch_of 4 (g_start st) /\ size (attested st) = 40.
 Proof. exists (skipping 40 0). vm_compute. auto. Qed.
 Print Assumptions C20_attested_tree_refuted.
+
+(* ... and without any bound: for EVERY n a history with a success in the newest epoch and n entries *)
+Theorem C20_attested_tree_unbounded :
+  forall n, n <> O ->
+    guarded 4 false starts_ok (skipping n 0) init = true /\
+    g_succ (run 4 false (skipping n 0) init) = epoch_of 4 (g_start (run 4 false (skipping n 0) init)) /\
+    size (attested (run 4 false (skipping n 0) init)) = N.of_nat n.
+Proof. exact attested_unbounded. Qed.
+Print Assumptions C20_attested_tree_unbounded.
 
 (* ---------------------------------------------------------------------------------------------- *)
 (* pendingAttestations (services/controller/standard): in every history (scheduling, rescheduling,
@@ -118,6 +127,15 @@ Theorem C20_sync_maps_tree_refuted :
 Proof. exists (messages 200 1000). vm_compute. auto. Qed.
 Print Assumptions C20_sync_maps_tree_refuted.
 
+(* for EVERY n and every SLOTS_PER_EPOCH: n message slots leave n roots and n records *)
+Theorem C20_sync_maps_tree_unbounded :
+  forall spe n,
+    guarded spe false msgs_ok (messages n 0) init = true /\
+    size (roots (run spe false (messages n 0) init)) = N.of_nat n /\
+    size (sdata (run spe false (messages n 0) init)) = N.of_nat n.
+Proof. exact sync_maps_unbounded. Qed.
+Print Assumptions C20_sync_maps_tree_unbounded.
+
 (* ---------------------------------------------------------------------------------------------- *)
 (* builderBidsCache (block relay) *)
 Theorem C20_bids_bounded :
@@ -133,6 +151,13 @@ Theorem C20_bids_tree_refuted :
   exists h, guarded 32 false aucs_ok h init = true /\ size (bids (run 32 false h init)) = 150.
 Proof. exists (auctions 150 7). vm_compute. auto. Qed.
 Print Assumptions C20_bids_tree_refuted.
+
+Theorem C20_bids_tree_unbounded :
+  forall spe n,
+    guarded spe false aucs_ok (auctions n 0) init = true /\
+    size (bids (run spe false (auctions n 0) init)) = N.of_nat n.
+Proof. exact bids_unbounded. Qed.
+Print Assumptions C20_bids_tree_unbounded.
 
 (* ---------------------------------------------------------------------------------------------- *)
 (* scheduler job table: in every history (either variant) a job in the table was set up by a
